@@ -51,12 +51,6 @@ class Method(Variable):  # i.e. TypeBound procedure
             ):
                 self.link_name = self.name.lower()
 
-    @property
-    def mems(self):
-        """Specific procedures, when the interface of this procedure pointer or
-        binding is a generic interface (its type is reported as INTERFACE)"""
-        return getattr(self.link_obj, "mems", [])
-
     def get_snippet(self, name_replace=None, drop_arg=-1):
         if self.link_obj is not None:
             name = self.name if name_replace is None else name_replace
